@@ -133,6 +133,19 @@ namespace
                         if (d.code == code_info_message && token.empty()) { token = find_token(d.text); }
                     }
                 }
+                else if (kind == "include4")
+                {
+                    // one hop more: a (virtual) file next to the includer includes the includer by its bare name,
+                    // the includer then includes the request relatively - resolved against the includer's own place
+                    auto from = op.str("from"); auto fromPhys = op.str("fromPhys");
+                    auto vs = from.find_last_of('/'); auto ps = fromPhys.find_last_of('/');
+                    std::string vdir = vs == std::string::npos ? std::string() : from.substr(0, vs);
+                    std::string pdir = ps == std::string::npos ? std::string() : fromPhys.substr(0, ps);
+                    std::string name = vs == std::string::npos ? from : from.substr(vs + 1);
+                    sqf::runtime::fileio::pathinfo pi(c.str("dir") + "/" + (pdir.empty() ? std::string() : pdir + "/") + "vdhop", vdir + "/vdhop");
+                    auto pp = rt.parser_preprocessor().preprocess(rt, "#include \"" + name + "\"\n", pi);
+                    if (pp.has_value()) { token = find_token(*pp); }
+                }
                 else if (kind == "include3")
                 {
                     // the includer twice in ONE preprocessor run: the request is resolved (and its file read) a second time
